@@ -116,7 +116,9 @@ func (c *controlConn) heartBeat() {
 		case error:
 			goto reconn
 		default:
-			panic(fmt.Sprintf("gocql: unknown frame in response to options: %T", resp))
+			// a frame of an unexpected kind must not take the process down, reconnect instead
+			c.session.logger.Printf("gocql: unknown frame in response to options: %T", resp)
+			goto reconn
 		}
 
 	reconn:
